@@ -19,7 +19,7 @@ def run(v, tier, seed, replay):
         cases = [rp["program"]]
         specs = [proggen.spec_of(cases[0])]
     else:
-        gens = [proggen.make(r.fork(), "tree", {"adapters": i % 4 == 0, "cycle_density": 1 + i % 3, "threads": 1 + i % 3, "ops": 20 + r.below(80), "open_at_close": i % 2 == 1, "sleeps": i % 3 != 0}) for i in range(n)]
+        gens = [proggen.make(r.fork(), "tree", {"adapters": i % 4 == 0, "cycle_density": 1 + i % 3, "threads": 1 + i % 3, "ops": 20 + r.below(80), "open_at_close": i % 2 == 1, "sleeps": i % 3 != 0, "prebuilt": i % 2 == 0}) for i in range(n)]
         cases = [g.lines for g in gens]
         specs = [g.s for g in gens]
         # unit boundaries of the duration arithmetic: a local span and a thread-safe span open for more than
@@ -29,6 +29,13 @@ def run(v, tier, seed, replay):
                     "0 lAddEvent 65 none", "0 elapsed r", "0 close", "0 close", "0 drop r", "0 cycle", "0 stats"]
             cases.append(long)
             specs.append(proggen.spec_of(long))
+        # an `Event` value built before the local span it is recorded in is entered (and before the thread-safe span it is
+        # added to was created): its timestamp is the instant of the recording call, not of `Event::new`
+        pre = ["0 spawn", "0 setReporter 0", "0 root r 72 1 0 1", "0 scope r", "0 evNew e1 6531 none", "0 evNew e2 6532 6b=76", "0 evNew e3 6533 none", "0 sleep 2500",
+               "0 localEnter 6f", "0 sleep 400", "0 lAddEventPre e1 6531 none", "0 localEnter 69", "0 lAddEventPre e2 6532 6b=76", "0 close", "0 close",
+               "0 child1 c 63 r", "0 sleep 400", "0 addEventPre c e3 6533 none", "0 drop c", "0 close", "0 drop r", "0 cycle", "0 stats"]
+        cases.append(pre)
+        specs.append(proggen.spec_of(pre))
     impl = seqrun.run_impl(cases, env={"FH_TIMES": "1"}) if ok else None
     model = seqrun.run_model(cases)
     fails, mism, nontriv, recs = [], [], set(), 0
